@@ -18,7 +18,7 @@ KnownIds == {"KF-C05-notlonger", "KF-C09-rollback-number", "KF-C16-txheight", "K
 Allow == {id \in KnownIds : \E i \in 1..(Len(AllowIds) - Len(id) + 1) : SubSeq(AllowIds, i, i + Len(id) - 1) = id}
 Prop == IF "PROP" \in DOMAIN IOEnv THEN IOEnv.PROP ELSE "C03"
 
-CfgOf(r) == [peers |-> ToSet(r.cfg.peers), lastN |-> r.cfg.lastN, allow |-> Allow,
+CfgOf(r) == [peers |-> ToSet(r.cfg.peers), lastN |-> r.cfg.lastN, allow |-> Allow, msgTimeout |-> 60, refreshLag |-> 8,
              interval |-> r.cfg.interval, maxOut |-> r.cfg.maxOut,
              \* peers that report invented check points (drivers for C07)
              liars |-> IF "liars" \in DOMAIN r.x THEN ToSet(r.x.liars) ELSE {}]
